@@ -124,7 +124,7 @@ def main():
     hooks_commits = []
     try:
         out = subprocess.check_output(["git", "-C", "/repo", "log", "--format=%h %s"], text=True)
-        hooks_commits = [l.split()[0] for l in out.splitlines() if l.split(" ", 1)[1].startswith("verif-hook:")]
+        hooks_commits = [l.split()[0] for l in out.splitlines() if l.split(" ", 1)[1].startswith(("verif-hook:", "verif hook:"))]
     except Exception:
         pass
     checks = []
@@ -149,8 +149,10 @@ def main():
         "setup_cmd": "./vcheck --setup",
         "hooks": {
             "guard": "FFSM2_VERIF",
-            "enable": "no source hooks are needed: the monitors observe through user callbacks, control objects, the "
-                      "LoggerInterface and the public observers; nothing in /repo is guarded by FFSM2_VERIF",
+            "enable": "one hook: with -DFFSM2_VERIF the library's fixed containers (StaticArrayT/DynamicArrayT/BitArrayT/TaskListT accessors, bit-stream "
+                      "read/write) report an out-of-range index to extern \"C\" ffsm2VerifOutOfBounds(), defined in harness/vh.hpp; only the C18 check builds "
+                      "with it (vlib/fsm.py: prop_c18, '-hook' builds). Everything else observes through user callbacks, control objects, the LoggerInterface "
+                      "and public observers. With the guard off the macro expands to ((void) 0).",
             "baseline_off_cmd": "/verif/baseline.sh",
             "source_commits": hooks_commits,
             "add_only": True,
